@@ -36,7 +36,7 @@ GridClause(r) ==
       F == ToSet(r.faces)
       face(i, j) == {f \in F : f[1] = (IF i < j THEN i ELSE j) /\ f[2] = (IF i < j THEN j ELSE i)}
       solid(i, j) == r.bounded[i + 1] /\ r.bounded[j + 1]
-  IN IF r.err # "" THEN "exception:" \o r.err
+  IN IF r.err # "" THEN r.err
      ELSE IF Len(r.vol) # r.n THEN "number of volumes"
      ELSE IF ~r.volPositive THEN "a cell volume is not positive (open Euclidean cell)"
      ELSE IF \E i \in 1 .. r.n : r.bounded[i] /\ r.vol[i] # r.ovol[i] THEN "volume is not the volume of the Euclidean Voronoi cell"
